@@ -77,6 +77,14 @@ then a header block and a data range per part -/
 def expectedMarkups (boundary : Bytes) (parts : List Part) : List Markup :=
   ⟨.data, 0, 0⟩ :: partMarkups (delim boundary).length (2 + boundary.length) parts
 
+/-- the bytes of `body` a section covers -/
+def sectionBytes (body : Bytes) (m : Markup) : Bytes := slice body m.start.toNat m.stop.toNat
+
+/-- what the sections of a complete body should contain: nothing before the first boundary, then
+per part the header lines (without the CRLF that belongs to CRLFCRLF) and the data -/
+def expectedContents (parts : List Part) : List Bytes :=
+  [] :: parts.flatMap fun p => [(headerBlock p.lines).take ((headerBlock p.lines).length - 2), p.data]
+
 /-! ### the byte-at-a-time reference machine -/
 
 /-- one byte of a prefix matcher for a pattern that starts with CR and has no other CR:
